@@ -524,6 +524,21 @@ def run(ck):
     for cls in ("Square", "Normal"):
         cfgs.append(dict(cls=cls, layout="vec", dims=[4], y=[3.0, 5.0, 2.0, 7.0], yhat=[2.5, 4.0, 3.5, 9.0], weights=[0.5, 1.5, 0.5, 1.5]))
 
+    # long series with a spread far from one (a product of 400 standard deviations of 50 has no double; the sum of their logs has);
+    # per-observation spreads that differ from each other by parts in a million (a vector, not "an expanded scalar")
+    r14 = np.random.default_rng(14)
+    for n_, sg in ((400, 50.0), (1200, 0.5)):
+        yy = [float(v) for v in np.round(1000.0 + 200.0 * r14.standard_normal(n_), 3)]
+        cfgs.append(dict(cls="Normal", layout="vec", dims=[n_], y=yy, yhat=[float(v) for v in np.round(np.array(yy) * r14.uniform(0.9, 1.1, n_), 3)],
+                         spread_form="float", spread=sg))
+    yy = [float(v) for v in np.round(r14.uniform(0.5, 3.0, 365), 4)]
+    cfgs.append(dict(cls="Normal", layout="vec", dims=[365], y=yy, yhat=[float(v) for v in np.round(np.array(yy) * r14.uniform(0.9, 1.1, 365), 4)],
+                     spread_form="array", spread=[float(v) for v in np.round(r14.uniform(0.05, 0.2, 365), 4)]))
+    for cls, base in (("Gamma", 2.5), ("NegBinom", 3.0), ("Normal", 0.7)):
+        yy = [3.0, 5.0, 2.0, 7.0, 4.0, 6.0]
+        cfgs.append(dict(cls=cls, layout="vec", dims=[6], y=yy, yhat=[2.5, 4.0, 3.5, 9.0, 4.4, 5.1], spread_form="array",
+                         spread=[base * (1.0 + 2e-6 * k) for k in range(6)], tol_rel=1e-9))
+
     dist = {}
     shape_cases = {}
     k_stats, s_stats = {}, {}
